@@ -387,15 +387,18 @@ def _install_wrappers(ns):
 # recording writers (S6)
 # --------------------------------------------------------------------------------------
 class Recorder(io.TextIOBase):
-    def __init__(self, sink, tag):
+    def __init__(self, sink, tag, strict=False):
         self.sink = sink
         self.tag = tag
+        self.strict = strict      # a UTF-8 stream with the strict error handler (what stdout is under an ordinary UTF-8 locale)
 
     def writable(self):
         return True
 
     def write(self, s):
         if s:
+            if self.strict:
+                s.encode("utf-8")        # raises UnicodeEncodeError exactly where the real stream would
             self.sink.append((self.tag, s))
         return len(s)
 
@@ -888,6 +891,7 @@ class Executor:
         # S6/S9: the report print
         emit_perms = list(op.get("emit_perms") or [])
         reports = []
+        stdout_mode = op.get("stdout")
 
         def rec_print(*args, **kw):
             if len(args) == 1 and isinstance(args[0], ns.errors._formatter):
@@ -901,6 +905,8 @@ class Executor:
                         fobj.errors._inner = [inner[j] for j in idx]
                     files.append(fobj)
                 text = str(fmt)
+                if stdout_mode == "strict":
+                    text.encode("utf-8")
                 rec = {"format": type(fmt).__name__, "text": ex.relpath(text), "files": []}
                 for fobj in files:
                     try:
@@ -912,13 +918,16 @@ class Executor:
                                          "status": st, "diags": d,
                                          "nlines": nlines_src(fobj)})
                 reports.append(rec)
-                out.append(("r", text if kw.get("end") == "" else text + kw.get("end", "\n")))
+                if stdout_mode != "closed":
+                    out.append(("r", text if kw.get("end") == "" else text + kw.get("end", "\n")))
                 return
             builtins.print(*args, **kw)
         ns.main.print = rec_print
 
         old = sys.stdout, sys.stderr, sys.argv, os.getcwd()
-        sys.stdout, sys.stderr = Recorder(out, "o"), Recorder(out, "e")
+        # S6: what standard output is: a lenient recorder (default), a strict UTF-8 stream, or closed (file descriptor 1 was
+        # closed when the process started: Python sets sys.stdout to None and print() does nothing)
+        sys.stdout, sys.stderr = (None if stdout_mode == "closed" else Recorder(out, "o", strict=stdout_mode == "strict")), Recorder(out, "e")
         # "<root>" in an argument stands for the absolute path of the scenario's tree (known only once the tree exists)
         sys.argv = ["norminette"] + [a.replace("<root>", self.scratch) if (self.scratch and isinstance(a, str)) else a for a in op["argv"]]
         if self.scratch:
